@@ -7,6 +7,7 @@ import (
 	"context"
 	"encoding/json"
 	"fmt"
+	"log/slog"
 	"math"
 	"net"
 	"net/http/httptest"
@@ -24,7 +25,6 @@ import (
 	"github.com/AdguardTeam/AdGuardHome/internal/aghnet"
 	"github.com/AdguardTeam/AdGuardHome/internal/filtering"
 	"github.com/AdguardTeam/AdGuardHome/internal/filtering/rulelist"
-	"github.com/AdguardTeam/golibs/logutil/slogutil"
 	"github.com/AdguardTeam/golibs/timeutil"
 	"github.com/AdguardTeam/urlfilter/rules"
 	"github.com/miekg/dns"
@@ -142,8 +142,23 @@ type c07H struct {
 	table   int
 	ignore  int
 	recs    []*c07Rec
-	byNS    map[int64]*c07Rec
+	byNS    map[int64][]*c07Rec
 	lastNS  int64
+	// hook is the slog handler of the log: newLogEntry reports an answer that
+	// cannot be packed through it, i.e. from inside Add, after the caller's part
+	// of the work and before Add locks the buffer.
+	hook *c07Hook
+	// latePct: per cent of the recorded queries whose Add is overtaken by
+	// whole other Adds (flushes, rotations) between building the entry and
+	// locking the buffer.
+	latePct int
+	// stepPct: per cent of the recorded queries whose stamp is rewritten the
+	// way a wall clock that stepped back (or stood still) would leave it.
+	stepPct int
+	// stepped: a stamp was rewritten out of order in this history (the
+	// assumption "clock readings under the lock strictly rise" is off).
+	stepped bool
+	inLate  bool
 	steps   []string
 	cls     map[string]bool
 	msgs    []string
@@ -176,7 +191,7 @@ type c07H struct {
 }
 
 func c07NewH(t *testing.T, r *vfRand, dir string) *c07H {
-	return &c07H{t: t, ctx: context.Background(), r: r, dir: dir, byNS: map[int64]*c07Rec{}, cls: map[string]bool{},
+	return &c07H{t: t, ctx: context.Background(), r: r, dir: dir, byNS: map[int64][]*c07Rec{}, cls: map[string]bool{}, hook: &c07Hook{},
 		anonSeen: map[int]bool{}, ivl: timeutil.Day, forceReason: -1, forceFiltered: -1, cells: map[[3]int]bool{}}
 }
 
@@ -238,7 +253,7 @@ func (h *c07H) newLog(memSize uint, fileEnabled, enabled bool) {
 		h.t.Fatal(err)
 	}
 	h.conf = Config{
-		Logger:         slogutil.NewDiscardLogger(),
+		Logger:         slog.New(h.hook),
 		Ignored:        eng,
 		Anonymizer:     aghnet.NewIPMut(nil),
 		ConfigModified: func() {},
@@ -267,8 +282,89 @@ func c07Canon(m map[string]any) string {
 	return string(b)
 }
 
+// c07Hook is the log's slog handler.  Only errors are enabled; when fn is set
+// the next "adding data from response" error runs it once, inside the Add that
+// logs it.
+type c07Hook struct{ fn func() }
+
+func (k *c07Hook) Enabled(_ context.Context, lv slog.Level) bool { return lv >= slog.LevelError }
+func (k *c07Hook) Handle(_ context.Context, rec slog.Record) error {
+	if k.fn != nil && rec.Message == "adding data from response" {
+		f := k.fn
+		k.fn = nil
+		f()
+	}
+	return nil
+}
+func (k *c07Hook) WithAttrs([]slog.Attr) slog.Handler { return k }
+func (k *c07Hook) WithGroup(string) slog.Handler      { return k }
+
+// Clock steps the harness simulates by rewriting the stamp of the entry just
+// pushed (as it does for the records "left by an earlier run").
+const (
+	c07StepNone  = iota
+	c07StepEqual // the reading of the previous record again
+	c07StepSwap  // 1 ns before the previous record
+	c07StepBack  // 1 ns before a record 2-4 places back
+)
+
 // add records one query and waits for the flush it may trigger.
 func (h *c07H) add() {
+	if h.latePct+h.stepPct > 0 && !h.inLate && !h.lockHeld && h.forceAge == 0 && h.l.conf.Enabled {
+		k := h.r.Intn(100)
+		switch {
+		case k < h.latePct:
+			n := int(h.r.Range(1, 3))
+			h.addX(func() {
+				for i := 0; i < n; i++ {
+					switch j := h.r.Intn(10); {
+					case j < 7:
+						h.add()
+					case j < 9:
+						h.flushOp()
+					default:
+						h.rotateOp()
+					}
+				}
+			}, c07StepNone)
+			return
+		case k < h.latePct+h.stepPct:
+			h.addX(nil, 1+h.r.Intn(3))
+			return
+		}
+	}
+	h.addX(nil, c07StepNone)
+}
+
+// unordered: the records the log holds are not in strictly increasing stamp
+// order in the order they were pushed.
+func (h *c07H) unordered() bool {
+	last := int64(math.MinInt64)
+	for _, x := range h.recs {
+		if x.where < 0 {
+			continue
+		}
+		if x.ns <= last {
+			return true
+		}
+		last = x.ns
+	}
+	return false
+}
+
+// weak: the history is outside the assumption (a simulated clock step left
+// stamps out of order): only what holds for every push order is judged
+// (each page newest first, the unpaged listing complete, cursor pages never
+// repeat a record), not the absence of gaps.
+func (h *c07H) weak() bool { return h.stepped && h.unordered() }
+
+// addX records one query.  late != nil: the Add is overtaken: it is called
+// with an answer that cannot be packed, newLogEntry reports that through the
+// logger, and the handler runs late (whole Adds of other queries, flushes,
+// rotations, each awaited) before Add goes on to lock the buffer: the schedule
+// "goroutine 1 has built its entry, goroutine 2 records its query, goroutine 1
+// gets the lock", driven through the real Add.  step: a simulated clock step.
+func (h *c07H) addX(late func(), step int) {
 	r := h.r
 	host := vfPick(r, c07Hosts)
 	if h.forceHost != "" {
@@ -356,10 +452,48 @@ func (h *c07H) add() {
 	}
 	// hold the flush lock so that the asynchronous flush cannot empty the
 	// buffer before the recorded entry has been read back
-	if !h.lockHeld {
+	hookRan := false
+	if late != nil {
+		// an A record whose owner name has a label of 70 bytes: Pack fails
+		a := &dns.Msg{}
+		a.SetReply(q)
+		a.Answer = append(a.Answer, &dns.A{Hdr: dns.RR_Header{Name: strings.Repeat("x", 70) + ".example.", Rrtype: dns.TypeA, Class: dns.ClassINET, Ttl: 1}, A: net.IPv4(9, 9, 9, 9)})
+		p.Answer, p.OrigAnswer = a, nil
+		nrec := len(h.recs)
+		h.hook.fn = func() {
+			// the entry has been built (before 3418b11: and stamped)
+			for t0 := time.Now().UnixNano(); time.Now().UnixNano() <= t0; {
+			}
+			h.trace("Add of the next record has built its entry and is about to lock the buffer; meanwhile:")
+			h.inLate = true
+			late()
+			h.inLate = false
+			if len(h.recs) > nrec {
+				h.cls["interleaved-add"] = true
+				if len(h.recs) > nrec+1 {
+					h.cls["interleaved-add-overtaken-by-2+"] = true
+				}
+				if h.recs[len(h.recs)-1].where == 1 {
+					h.cls["interleaved-add-across-flush"] = true
+				}
+				if h.recs[len(h.recs)-1].where == 2 {
+					h.cls["interleaved-add-across-rotation"] = true
+				}
+			}
+			for time.Now().UnixNano() <= h.lastNS {
+			}
+			// from here on as in an ordinary add: the flush this Add may spawn
+			// must not empty the buffer before the entry has been read back
+			l.fileFlushLock.Lock()
+			hookRan = true
+		}
+	} else if !h.lockHeld {
 		l.fileFlushLock.Lock()
 	}
 	l.Add(p)
+	if late != nil && !hookRan {
+		h.t.Fatal("the logger hook did not run inside Add")
+	}
 	var ent *logEntry
 	var pending bool
 	func() {
@@ -384,6 +518,32 @@ func (h *c07H) add() {
 			ent.Time = time.Unix(0, old.UnixNano())
 		}()
 		h.cls["backdated-record"] = true
+	}
+	stepped := false
+	if step != c07StepNone && len(h.recs) > 0 {
+		// a wall clock that stood still / stepped back between two readings
+		ns, cl := int64(0), ""
+		switch step {
+		case c07StepEqual:
+			ns, cl = h.recs[len(h.recs)-1].ns, "clock-step-equal"
+		case c07StepSwap:
+			ns, cl = h.recs[len(h.recs)-1].ns-1, "clock-step-swap"
+		default:
+			k := int(r.Range(2, 4))
+			if k > len(h.recs) {
+				k = len(h.recs)
+			}
+			ns, cl = h.recs[len(h.recs)-k].ns-1, "clock-step-back-k"
+		}
+		if ns > 0 && (step == c07StepEqual || len(h.byNS[ns]) == 0) {
+			func() {
+				l.bufferLock.Lock()
+				defer l.bufferLock.Unlock()
+				ent.Time = time.Unix(0, ns)
+			}()
+			stepped, h.stepped = true, true
+			h.cls[cl] = true
+		}
 	}
 	rec := &c07Rec{id: len(h.recs) + 1, ns: ent.Time.UnixNano(), host: ent.QHost, ip: ent.IP.String(), cid: ent.ClientID,
 		reason: ent.Result.Reason, filtered: ent.Result.IsFiltered}
@@ -427,13 +587,25 @@ func (h *c07H) add() {
 		l.fileFlushLock.Lock()
 		l.fileFlushLock.Unlock()
 	}
-	if rec.ns <= h.lastNS {
-		h.t.Fatalf("clock went backwards: %d after %d", rec.ns, h.lastNS)
+	if !stepped && rec.ns <= h.lastNS {
+		// the clock was made to advance past every earlier stamp before this
+		// Add was called (and again before it locked the buffer)
+		prev := h.recs[len(h.recs)-1]
+		for _, x := range h.recs {
+			if x.ns >= rec.ns {
+				prev = x
+				break
+			}
+		}
+		h.fail("stamp-order", "record #%d was pushed after record #%d but carries a stamp %d ns older (overtaken between building the entry and locking the buffer: %v): push order is not stamp order",
+			rec.id, prev.id, prev.ns-rec.ns, late != nil)
 	}
-	h.lastNS = rec.ns
+	if rec.ns > h.lastNS {
+		h.lastNS = rec.ns
+	}
 	h.recs = append(h.recs, rec)
-	h.byNS[rec.ns] = rec
-	h.trace("add #%d %s from %s clientid=%q reason=%d flush_spawned=%v", rec.id, rec.host, rec.ip, rec.cid, rec.reason, pending)
+	h.byNS[rec.ns] = append(h.byNS[rec.ns], rec)
+	h.trace("add #%d %s from %s clientid=%q reason=%d flush_spawned=%v overtaken=%v clock_step=%v stamp=%d", rec.id, rec.host, rec.ip, rec.cid, rec.reason, pending, late != nil, stepped, rec.ns)
 	opName := "OAdd"
 	if h.lockHeld {
 		opName = "OAddAsync"
@@ -887,7 +1059,7 @@ type c07Resp struct {
 func (h *c07H) listing() {
 	all := h.expected(c07Query{})
 	resp := h.search(c07Query{})
-	if resp.code == 0 && !c07Eq(resp.ids, all) {
+	if resp.code == 0 && !h.same(resp.ids, all) {
 		h.fail("complete-once-ordered", "full listing returned %v, recorded and not removed: %v", resp.ids, all)
 	}
 }
@@ -932,10 +1104,13 @@ func (h *c07H) search(q c07Query) (resp c07Resp) {
 					h.t.Fatal(err)
 				}
 				ns := t.UnixNano()
+				if n := len(resp.nss); n > 0 && ns > resp.nss[n-1] {
+					h.fail("page-newest-first", "GET /control/querylog?%s: row %d (time %s) is newer than the row before it", q.encode(), n, ts)
+				}
 				resp.nss = append(resp.nss, ns)
 				cl, _ := e["client"].(string)
 				resp.clients = append(resp.clients, cl)
-				if rec := h.byNS[ns]; rec != nil {
+				if rec := h.recOf(ns, e); rec != nil {
 					resp.ids = append(resp.ids, rec.id)
 					want, wantCl := rec.want, rec.ip
 					if h.anon {
@@ -1030,7 +1205,10 @@ func (h *c07H) searchDirect(q c07Query, olderNS int64, limit, offset, scan int) 
 	cids := []string{}
 	for _, e := range entries {
 		id := 0
-		if rec := h.byNS[e.Time.UnixNano()]; rec != nil {
+		if n := len(ids); n > 0 && e.Time.UnixNano() > entries[n-1].Time.UnixNano() {
+			h.fail("page-newest-first", "search(%+v): entry %d is newer than the entry before it", params, n)
+		}
+		if rec := h.recOfEntry(e); rec != nil {
 			id = rec.id
 		} else {
 			h.fail("unknown-entry", "search returned an entry that was never recorded")
@@ -1073,7 +1251,12 @@ func (h *c07H) scanChain(crit c07Query, limit, scan int) {
 		}
 		older = oldest
 	}
-	if !c07Eq(got, want) {
+	if h.weak() {
+		// an empty page may hand out a cursor that is not older: no claim
+		if ok, why := h.pagesOK(got, want, false); !ok {
+			h.fail("scan-window-paging", "pages of %d with scan window %d (criteria %+v) give %v: %s", limit, scan, crit, got, why)
+		}
+	} else if !h.same(got, want) {
 		h.fail("scan-window-paging", "pages of %d with scan window %d (criteria %+v) followed to the reported end give %v, want %v", limit, scan, crit, got, want)
 	}
 }
@@ -1160,6 +1343,8 @@ func (h *c07H) expected(q c07Query) (ids []int) {
 			ids = append(ids, x.id)
 		}
 	}
+	// newest first by stamp (reverse push order, when stamps are in push order)
+	sort.SliceStable(ids, func(i, j int) bool { return h.recs[ids[i]-1].ns > h.recs[ids[j]-1].ns })
 	return ids
 }
 
@@ -1175,13 +1360,112 @@ func c07Eq(a, b []int) bool {
 	return true
 }
 
+// recOf finds the record a returned row stands for: by stamp, and among
+// records with the same stamp by the fields of the row.
+func (h *c07H) recOf(ns int64, row map[string]any) *c07Rec {
+	c := h.byNS[ns]
+	if len(c) == 0 {
+		return nil
+	}
+	if len(c) > 1 {
+		cp := map[string]any{}
+		for k, v := range row {
+			cp[k] = v
+		}
+		got := c07Canon(cp)
+		for _, x := range c {
+			if got == x.want || got == x.wantAnon {
+				return x
+			}
+		}
+		qn := ""
+		if qm, ok := row["question"].(map[string]any); ok {
+			qn, _ = qm["name"].(string)
+		}
+		for _, x := range c {
+			if x.host == qn {
+				return x
+			}
+		}
+	}
+	return c[0]
+}
+
+func (h *c07H) recOfEntry(e *logEntry) *c07Rec {
+	c := h.byNS[e.Time.UnixNano()]
+	if len(c) == 0 {
+		return nil
+	}
+	for _, x := range c {
+		if x.host == e.QHost && x.cid == e.ClientID && x.reason == e.Result.Reason && x.filtered == e.Result.IsFiltered {
+			return x
+		}
+	}
+	return c[0]
+}
+
+// same: equal id sequences, up to the order of records with equal stamps.
+func (h *c07H) same(got, want []int) bool {
+	if len(got) != len(want) {
+		return false
+	}
+	norm := func(ids []int) []int {
+		out := slices.Clone(ids)
+		for i := 0; i < len(out); {
+			j := i
+			for j < len(out) && out[j] > 0 && out[i] > 0 && h.recs[out[j]-1].ns == h.recs[out[i]-1].ns {
+				j++
+			}
+			if j == i {
+				j = i + 1
+			}
+			sort.Ints(out[i:j])
+			i = j
+		}
+		return out
+	}
+	return c07Eq(norm(got), norm(want))
+}
+
+// pagesOK judges the concatenation of the pages of one paging run.  In a
+// history inside the assumption: exactly the demanded sequence.  Outside
+// (stamps out of order after a simulated clock step): for cursor chains no
+// record twice, only demanded records, newest first as a whole; for offset
+// pages only demanded records (each page newest first is judged per response).
+func (h *c07H) pagesOK(got, want []int, cursor bool) (ok bool, why string) {
+	if !h.weak() {
+		return h.same(got, want), ""
+	}
+	h.cls["judged-any-push-order"] = true
+	in := map[int]bool{}
+	for _, id := range want {
+		in[id] = true
+	}
+	seen := map[int]bool{}
+	for i, id := range got {
+		if !in[id] {
+			return false, fmt.Sprintf("record %d is not among the demanded ones", id)
+		}
+		if cursor {
+			if seen[id] {
+				return false, fmt.Sprintf("record %d is returned twice", id)
+			}
+			seen[id] = true
+			if i > 0 && id > 0 && got[i-1] > 0 && h.recs[id-1].ns > h.recs[got[i-1]-1].ns {
+				return false, fmt.Sprintf("record %d is newer than record %d returned before it", id, got[i-1])
+			}
+		}
+	}
+	return true, ""
+}
+
 // battery runs the searches on the current state.
 func (h *c07H) battery(full bool) {
 	r := h.r
 	// 1. everything, default paging
 	all := h.expected(c07Query{})
 	resp := h.search(c07Query{})
-	if resp.code == 0 && !c07Eq(resp.ids, all) {
+	if resp.code == 0 && !h.same(resp.ids, all) {
 		h.fail("complete-once-ordered", "full listing returned %v, recorded and not removed: %v", resp.ids, all)
 	}
 	if len(all) > 0 {
@@ -1207,13 +1491,13 @@ func (h *c07H) battery(full bool) {
 				break
 			}
 			got = append(got, resp.ids...)
-			if resp.oldest == "" || len(resp.ids) == 0 {
+			if resp.oldest == "" || len(resp.ids) == 0 || resp.ids[len(resp.ids)-1] == 0 {
 				break
 			}
 			if page > 0 {
 				h.cls["cursor-page-2+"] = true
 			}
-			if rec := h.byNS[resp.nss[len(resp.nss)-1]]; rec != nil && page >= 0 {
+			if rec := h.recs[resp.ids[len(resp.ids)-1]-1]; resp.ids[len(resp.ids)-1] > 0 && page >= 0 {
 				switch rec.where {
 				case 0:
 					h.cls["cursor-in-memory"] = true
@@ -1225,8 +1509,8 @@ func (h *c07H) battery(full bool) {
 			}
 			q.older = resp.oldest
 		}
-		if !c07Eq(got, want) {
-			h.fail("cursor-paging", "cursor pages of %d (criteria %+v) concatenate to %v, want %v", lim, crit, got, want)
+		if ok, why := h.pagesOK(got, want, true); !ok {
+			h.fail("cursor-paging", "cursor pages of %d (criteria %+v) concatenate to %v, want %v %s", lim, crit, got, want, why)
 		}
 	}
 	// 3. offset paging
@@ -1245,8 +1529,8 @@ func (h *c07H) battery(full bool) {
 				h.cls["offset-page-2+"] = true
 			}
 		}
-		if !c07Eq(got, want) {
-			h.fail("offset-paging", "offset pages of %d (criteria %+v) concatenate to %v, want %v", lim, crit, got, want)
+		if ok, why := h.pagesOK(got, want, false); !ok {
+			h.fail("offset-paging", "offset pages of %d (criteria %+v) concatenate to %v, want %v %s", lim, crit, got, want, why)
 		}
 	}
 	if !full {
@@ -1256,7 +1540,7 @@ func (h *c07H) battery(full bool) {
 	for si, st := range c07Statuses {
 		q := c07Query{status: st}
 		resp = h.search(q)
-		if w := h.expected(q); resp.code == 0 && !c07Eq(resp.ids, w) {
+		if w := h.expected(q); resp.code == 0 && !h.same(resp.ids, w) {
 			h.fail("filters-exact", "response_status=%s returned %v, want %v", st, resp.ids, w)
 		} else if len(w) > 0 && len(w) < len(all) {
 			h.cls["status-selects-"+st] = true
@@ -1287,7 +1571,7 @@ func (h *c07H) battery(full bool) {
 			q.status = vfPick(r, c07Statuses)
 		}
 		resp = h.search(q)
-		if w := h.expected(q); resp.code == 0 && !c07Eq(resp.ids, w) {
+		if w := h.expected(q); resp.code == 0 && !h.same(resp.ids, w) {
 			h.fail("filters-exact", "search=%s status=%s returned %v, want %v", term, q.status, resp.ids, w)
 		} else if len(w) > 0 && len(w) < len(all) {
 			if term == "kitchen" || term == "set" || term == "s laptop" || term == "kiosk" {
@@ -1645,6 +1929,10 @@ var c07Stuck bool
 // names that hold an upper-case K / S past their start); -1 = random.
 var c07ForceTable = -1
 
+// c07LatePct / c07StepPct: see c07H.latePct / stepPct (for the histories
+// started next).
+var c07LatePct, c07StepPct = 0, 0
+
 var c07Terms = []string{
 	"example", "EXAMPLE.ORG", `"example.org"`, `"ads.example.org"`, "ads", "192.168.1.5", `"192.168.1.5"`,
 	"192.168.1", "phone", `"phone"`, "Kitchen", `"kitchen"`, "alices", "пример", `"пример.example"`,
@@ -1667,6 +1955,7 @@ func c07History(t *testing.T, out *vfOut, r *vfRand, nops int, mem uint, fileEna
 		h.table = c07ForceTable
 	}
 	h.newLog(mem, fileEnabled, true)
+	h.latePct, h.stepPct = c07LatePct, c07StepPct
 	c0 := h.coqConfig()
 	if mem == 0 {
 		h.cls["mem-size-0"] = true
@@ -1829,6 +2118,127 @@ func c07ClearRacePrelude(t *testing.T, out *vfOut, r *vfRand, mem uint) {
 	out.Emit(c)
 }
 
+// pagingAll follows cursor chains with pages of 1, 2, 3 and asks offset pages
+// of 1 and 2 on the current state, without criteria.
+func (h *c07H) pagingAll() {
+	want := h.expected(c07Query{})
+	h.listing()
+	for _, lim := range []int{1, 2, 3} {
+		var got []int
+		q := c07Query{limit: strconv.Itoa(lim)}
+		for page := 0; page <= len(h.recs)+2; page++ {
+			resp := h.search(q)
+			if resp.code != 0 {
+				break
+			}
+			got = append(got, resp.ids...)
+			if resp.oldest == "" || len(resp.ids) == 0 {
+				break
+			}
+			if page > 0 {
+				h.cls["cursor-page-2+"] = true
+			}
+			q.older = resp.oldest
+		}
+		if ok, why := h.pagesOK(got, want, true); !ok {
+			h.fail("cursor-paging", "cursor pages of %d concatenate to %v, want %v %s", lim, got, want, why)
+		}
+	}
+	for _, lim := range []int{1, 2} {
+		var got []int
+		for off := 0; off <= len(want)+lim; off += lim {
+			resp := h.search(c07Query{limit: strconv.Itoa(lim), offset: strconv.Itoa(off)})
+			if resp.code != 0 {
+				break
+			}
+			got = append(got, resp.ids...)
+		}
+		if ok, why := h.pagesOK(got, want, false); !ok {
+			h.fail("offset-paging", "offset pages of %d concatenate to %v, want %v %s", lim, got, want, why)
+		}
+	}
+}
+
+// c07OrderPrelude: constructed histories in the dimension "push order vs
+// stamp order".  Script tokens: a = add; L1 / L2 = an Add overtaken by one /
+// two whole Adds; Lf = overtaken by an Add and a flush; Lr = by an Add, a flush
+// and a rotation; s= / s< / sk = an add whose stamp is rewritten as by a clock
+// that stood still / stepped back past the previous record / past a record 2-4
+// places back; f = flush; r = rotate; R = restart; p = paging with fixed page
+// sizes; b / B = the battery.
+func c07OrderPrelude(t *testing.T, out *vfOut, r *vfRand, kind string, mem uint, script string) {
+	dir, err := os.MkdirTemp(t.TempDir(), "o")
+	if err != nil {
+		t.Fatal(err)
+	}
+	defer os.RemoveAll(dir)
+	h := c07NewH(t, r, dir)
+	h.newLog(mem, true, true)
+	c0 := h.coqConfig()
+	nested := func(n int, flush, rotate bool) func() {
+		return func() {
+			for i := 0; i < n; i++ {
+				h.add()
+			}
+			if flush {
+				h.flushOp()
+			}
+			if rotate {
+				h.rotateOp()
+			}
+		}
+	}
+	for _, tok := range strings.Fields(script) {
+		if h.stuck {
+			break
+		}
+		switch tok {
+		case "a":
+			h.add()
+		case "L1":
+			h.addX(nested(1, false, false), c07StepNone)
+		case "L2":
+			h.addX(nested(2, false, false), c07StepNone)
+		case "Lf":
+			h.addX(nested(1, true, false), c07StepNone)
+		case "Lr":
+			h.addX(nested(1, true, true), c07StepNone)
+		case "s=":
+			h.addX(nil, c07StepEqual)
+		case "s<":
+			h.addX(nil, c07StepSwap)
+		case "sk":
+			h.addX(nil, c07StepBack)
+		case "f":
+			h.flushOp()
+		case "r":
+			h.rotateOp()
+		case "R":
+			h.restart(nil)
+		case "p":
+			h.pagingAll()
+		case "b":
+			h.battery(false)
+		case "B":
+			h.battery(true)
+		default:
+			t.Fatalf("script token %q", tok)
+		}
+		h.state()
+	}
+	for _, x := range h.recs {
+		switch x.where {
+		case 0:
+			h.cls["entries-in-memory"] = true
+		case 1:
+			h.cls["entries-in-current-file"] = true
+		case 2:
+			h.cls["entries-in-rotated-file"] = true
+		}
+	}
+	h.finish(out, c0, map[string]any{"kind": kind, "mem_size": mem, "script": script})
+}
+
 func TestVerifC07(t *testing.T) {
 	out := vfOpen(t, "C07")
 	defer out.Close()
@@ -1875,9 +2285,33 @@ func TestVerifC07(t *testing.T) {
 			}
 		}
 	}
+	// push order vs stamp order: Adds overtaken between building the entry and
+	// locking the buffer (real interleavings; since 3418b11 the stamp is taken
+	// under the lock, so these are judged at full strength) ...
+	for _, sc := range []struct {
+		kind   string
+		mem    uint
+		script string
+	}{
+		{"overtaken-memory", 50, "a L1 p L2 p a L1 L1 p b"},
+		{"overtaken-flush", 50, "a L1 f p a Lf p a a Lr p a f p L2 r p B"},
+		{"overtaken-mem2", 2, "a L1 p L2 p a Lf p L1 L1 p R a L1 p b"},
+		{"overtaken-mem1", 1, "a L1 p L1 r L2 p"},
+		// ... and stamps left out of order by a clock that stood still or stepped
+		// back (outside the assumption: judged by what holds for every push order)
+		{"clock-step-swap", 50, "a a s< p a p f p a s< p r a p f p b"},
+		{"clock-step-equal", 50, "a a s= p a p f p a s= p b"},
+		{"clock-step-back", 50, "a a a a sk p f p a a sk p r a sk p f p B"},
+		{"clock-step-mem3", 3, "a a s< p a a sk p a s= p a a p R a s< p b"},
+	} {
+		if !c07Stuck {
+			c07OrderPrelude(t, out, vfNewRand(31), sc.kind, sc.mem, sc.script)
+		}
+	}
 	// ---- random histories
 	rnd := vfNewRand(out.Seed)
 	n := out.Scale(120, 500)
+	c07LatePct = 8
 	for i := 0; i < n && !c07Stuck; i++ {
 		r := rnd.Fork(uint64(i))
 		mem := uint(r.Range(1, 8))
@@ -1886,4 +2320,12 @@ func TestVerifC07(t *testing.T) {
 		}
 		c07History(t, out, r, int(r.Range(4, 45)), mem, !r.Chance(1, 8), "random")
 	}
+	// random histories with simulated clock steps
+	c07StepPct = 15
+	n = out.Scale(16, 80)
+	for i := 0; i < n && !c07Stuck; i++ {
+		r := rnd.Fork(uint64(100000 + i))
+		c07History(t, out, r, int(r.Range(6, 40)), uint(r.Range(1, 8)), !r.Chance(1, 8), "random-clock-step")
+	}
+	c07LatePct, c07StepPct = 0, 0
 }
